@@ -1,7 +1,8 @@
-// c11: results do not depend on worker count or scheduling. DESIGN.md §2 C11.
+// Package c11perm holds the C11 "permutations" space and the outcome function shared with the scheduler
+// space (which has to live in package main of cmd/pint). DESIGN.md §2 C11.
 // Space "permutations": every arrival order of real report streams through Summary.Report -> SortReports ->
 // Dedup -> renderers -> fail-on counts must give one outcome.
-package main
+package c11perm
 
 import (
 	"context"
@@ -199,12 +200,21 @@ func head(s string) string {
 	return s[:i]
 }
 
-func main() {
-	explore.Main(&explore.Config{
-		Property: "C11", Level: "exploration",
-		Rule: "report streams produced by the real checks on 5 files built to contain sort-key ties and near-duplicates (one check at two severities, problems differing in Details only, foldable duplicates across rules, one check firing twice on a rule) under a config with near-duplicate check instances; for each stream of n<=7 (thorough 8) reports ALL n! arrival orders go through Summary.Report -> SortReports -> Dedup -> console/JSON/checkstyle/TeamCity renderers -> fail-on counts and must give the outcome of job order",
-		Assumptions: []string{"arrival order at the results channel is the only way scheduling can influence the summary (checkRules appends in arrival order); the channel fan-in itself is explored under the controlled scheduler in the 'schedules' space when present"},
-		Spaces:      []*explore.Space{{Name: "permutations", Body: permutations, Setup: setup, Bound: func(string) int { return -1 }}},
-		BudgetS:     func(t string) int { return 900 },
-	})
+// TieConfig is the configuration with near-duplicate check instances.
+const TieConfig = tieConfig
+
+// Files are the rule files built to contain ties.
+var Files = files
+
+// Outcome renders a report stream the way lint/ci do and appends the fail-on verdicts.
+func Outcome(rs []reporter.Report) (string, string) { return outcome(rs) }
+
+// Tail returns the counts/exit part of an outcome.
+func Tail(s string) string { return tail(s) }
+
+// Space is the permutations space.
+func Space() *explore.Space {
+	return &explore.Space{Name: "permutations", Body: permutations, Setup: setup, Bound: func(string) int { return -1 }}
 }
+
+const Rule = "report streams produced by the real checks on 5 files built to contain sort-key ties and near-duplicates (one check at two severities, problems differing in Details only, foldable duplicates across rules, one check firing twice on a rule) under a config with near-duplicate check instances; for each stream of n<=7 (thorough 8) reports ALL n! arrival orders go through Summary.Report -> SortReports -> Dedup -> console/JSON/checkstyle/TeamCity renderers -> fail-on counts and must give the outcome of job order"
